@@ -285,7 +285,19 @@ def motion_op_strategy(coord=None, shapes=True, depth=2):
                          {"x_axis": "A", "z_axis": "C", "comment_symbols": "("},
                          {"decimal_places": 9, "line_endings": "\\r\\n"}]).map(
             lambda c: {"op": "other_builder", "cfg": c}))
-    prim = st.one_of(prim, prim, prim, prim, prim, noise)
+    # ops that emit nothing and are carried out by the property's own `before`
+    # hook (C01): relabelling an axis in the middle of a history, and the
+    # pure conversion helpers to_absolute / to_absolute_list / to_distance_mode
+    aux = st.one_of(
+        st.fixed_dictionaries({"op": st.just("relabel"), "axis": st.sampled_from(["x", "y", "z"]),
+                               "label": st.sampled_from(["A", "B", "C", "U", "V", "W", "X", "Y",
+                                                         "Z", " a ", "w"]),
+                               "via": st.sampled_from(["rename_axis", "format"])}),
+        st.fixed_dictionaries({"op": st.just("query"),
+                               "fn": st.sampled_from(["to_absolute", "to_distance_mode",
+                                                      "to_absolute_list"]),
+                               "pts": st.lists(pt, min_size=1, max_size=3)}))
+    prim = st.one_of(prim, prim, prim, prim, prim, noise, prim, prim, prim, prim, prim, aux)
     if shapes:
         prim = st.one_of(prim, prim, prim, st.fixed_dictionaries(
             {"op": st.just("shape"), "d": shape_strategy(),
@@ -380,6 +392,8 @@ def exec_primitive(g, op):
         kw = dict(kw)
         kw.update(op.get("params", {}))
         return getattr(g.trace, method)(*args, **kw)
+    if name in ("relabel", "query"):     # carried out by the caller's `before` hook
+        return None
     if name == "noise":     # state-tracked calls that do not move anything
         return getattr(g, op["call"])(*op.get("args", []))
     if name == "other_builder":
